@@ -93,14 +93,44 @@ func pathPoints(f b6.PhysicalFeature, byID b6.LocationsByID) ([]s2.Point, error)
 	return points, nil
 }
 
-func ValidatePathForArea(p b6.PhysicalFeature) error {
-	if p.GeometryLen() < 3 {
-		return fmt.Errorf("%s: %d points, expected 3 or more", p.FeatureID(), p.GeometryLen())
+func ValidatePathForArea(p b6.PhysicalFeature, byID b6.LocationsByID) error {
+	n := p.GeometryLen()
+	if n < 3 {
+		return fmt.Errorf("%s: %d points, expected 3 or more", p.FeatureID(), n)
 	}
-	if p.PointAt(0) != p.PointAt(p.GeometryLen()-1) {
+	if p.AllTags().ClosedPath() {
+		// The path ends at the point feature it starts from, and ValidatePath
+		// will have already ensured that it's a valid anticlockwise loop.
+		return nil
+	}
+	// The path can still end where it starts - at another point in the same
+	// place, or because it's given by locations alone. ValidatePath doesn't
+	// consider such a path closed, so the loop the area would be built from
+	// hasn't been validated. Points are looked up in the features we're
+	// validating against, as a path taken from a world below them wouldn't
+	// see a point that's being replaced.
+	points := make([]s2.Point, n)
+	for i := range points {
+		if id := p.Reference(i).Source(); id.IsValid() {
+			ll, err := byID.FindLocationByID(id)
+			if err != nil {
+				return fmt.Errorf("%s: missing point %s", p.FeatureID(), id)
+			}
+			points[i] = s2.PointFromLatLng(ll)
+		} else {
+			points[i] = p.PointAt(i)
+		}
+	}
+	if points[0] != points[n-1] {
 		return fmt.Errorf("%s: not closed", p.FeatureID())
 	}
-	// ValidatePath will have already ensured that closed paths are clockwise
+	loop := s2.LoopFromPoints(points[0 : n-1])
+	if err := loop.Validate(); err != nil {
+		return fmt.Errorf("%s: invalid loop: %s", p.FeatureID(), err)
+	}
+	if loop.Area() > 2.0*math.Pi {
+		return fmt.Errorf("%s: ordered clockwise", p.FeatureID())
+	}
 	return nil
 }
 
@@ -112,7 +142,7 @@ func ValidateArea(a *AreaFeature, features b6.FeaturesByID) error {
 		if ids, ok := a.PathIDs(i); ok {
 			for _, id := range ids {
 				if path := features.FindFeatureByID(id); path != nil {
-					if err := ValidatePathForArea(path.(b6.PhysicalFeature)); err != nil {
+					if err := ValidatePathForArea(path.(b6.PhysicalFeature), features); err != nil {
 						return err
 					}
 				} else {
